@@ -236,7 +236,11 @@ HEADER_TYPES = r'''
 struct with_max { char c; max_align_t m; char d; }; struct with_va { char c; va_list v; }; struct with_flag { char c; atomic_flag f; atomic_long l; };
 int main(void) {
   SA(size_t); SA(ptrdiff_t); SA(wchar_t); SA(max_align_t); SA(va_list); SA(bool); SA(atomic_flag); SA(atomic_int); SA(atomic_long); SA(atomic_bool); SA(atomic_char); SA(atomic_short);
-  SA(atomic_uintptr_t); SA(atomic_size_t); SA(atomic_llong); SA(atomic_ullong); SA(atomic_intmax_t); SA(atomic_ptrdiff_t); SA(memory_order); SA(struct with_max); SA(struct with_va); SA(struct with_flag);
+  SA(atomic_uintptr_t); SA(atomic_size_t); SA(atomic_llong); SA(atomic_ullong); SA(atomic_intmax_t); SA(atomic_ptrdiff_t);
+  SA(atomic_schar); SA(atomic_uchar); SA(atomic_ushort); SA(atomic_uint); SA(atomic_ulong); SA(atomic_char16_t); SA(atomic_char32_t); SA(atomic_wchar_t); SA(atomic_int_least8_t); SA(atomic_uint_least8_t); SA(atomic_int_least16_t); SA(atomic_uint_least16_t);
+  SA(atomic_int_least32_t); SA(atomic_uint_least32_t); SA(atomic_int_least64_t); SA(atomic_uint_least64_t); SA(atomic_int_fast8_t); SA(atomic_uint_fast8_t); SA(atomic_int_fast16_t); SA(atomic_uint_fast16_t); SA(atomic_int_fast32_t); SA(atomic_uint_fast32_t);
+  SA(atomic_int_fast64_t); SA(atomic_uint_fast64_t); SA(atomic_intptr_t); SA(atomic_uintmax_t);
+  { atomic_wchar_t w = -1; atomic_int_fast16_t f16 = -1; atomic_uint_fast32_t uf32 = -1; atomic_char16_t c16 = -1; atomic_char32_t c32 = -1; atomic_schar sc = -1; atomic_char pc = -1; VI(w < 0); VI(f16 < 0); VI(uf32 > 0); VI(c16 > 0); VI(c32 > 0); VI(sc < 0); VI(pc < 0); VI(sizeof(w + 0)); VI(sizeof(f16 + 0)); } SA(memory_order); SA(struct with_max); SA(struct with_va); SA(struct with_flag);
   SG(size_t); SG(ptrdiff_t); SG(wchar_t); SG(bool);
   VI(true); VI(false); VI(__bool_true_false_are_defined); VI(__alignas_is_defined); VI(__alignof_is_defined); VI(sizeof(NULL)); VI(offsetof(struct with_max, m)); VI(offsetof(struct with_max, d));
   VI(offsetof(struct with_va, v)); VI(offsetof(struct with_flag, l)); VI(sizeof(offsetof(struct with_va, v))); VI(alignof(max_align_t)); VI(sizeof(true)); VI((size_t)-1 > 0); VI(sizeof((char *)0 - (char *)0));
